@@ -17,6 +17,15 @@ theorem eval_subst {α : Type} (I : Interp α) (ρ : Env α) (σ : Sym → Optio
   | f2 f a b iha ihb => simp [subst, eval, iha, ihb]
   | f3 f a b c iha ihb ihc => simp [subst, eval, iha, ihb, ihc]
 
+theorem eval_subst1 {α : Type} (I : Interp α) (ρ : Env α) (x : Sym) (t e : Expr) :
+    eval I ρ (subst1 x t e) = eval I (ρ.set x (eval I ρ t)) e := by
+  unfold subst1
+  rw [eval_subst]
+  congr 1
+  funext y
+  unfold Env.set
+  by_cases h : y = x <;> simp [h]
+
 theorem eval_congr {α : Type} (I : Interp α) (ρ ρ' : Env α) (e : Expr)
     (h : ∀ y ∈ e.syms, ρ y = ρ' y) : eval I ρ e = eval I ρ' e := by
   induction e with
